@@ -78,3 +78,8 @@ chk('C16', 'model_checking',
     'Monitors in mc/refmodels/proto_axi.py trusted; cycle alignment taken from the docstrings, freedoms the statement leaves open are listed in the check\'s ASSUMPTIONS; small data alphabets (data is only moved).',
     'explicit-state model checking of the implementation against a reference protocol monitor (product BFS, all inputs per step)',
     'DESIGN.md 4/C16')
+chk('C06', 'exploration',
+    'Invariant 0 <= value < 2**width (type int) on every wire of the hierarchy, evaluated after simulator creation, after every clk, inside a simulator listener and on Waveform samples, over the whole design catalogue with all input vectors and over an exhaustive grid of out-of-range constants, stimulus, reset values, memory data and direct put/prepare values in [-2**w-1, 2**w+1].',
+    'Widths above the bound not covered; the same width monitor also runs inside the explorers of the state-graph checks.',
+    'bounded exhaustive input/configuration enumeration with an invariant monitor on every wire',
+    'DESIGN.md 4/C06')
